@@ -5,6 +5,7 @@ import json
 import sys
 
 pid, wt = sys.argv[1], sys.argv[2]
+avoid = sys.argv[3] if len(sys.argv) > 3 else ""
 for line in open("/verif/properties.jsonl"):
     p = json.loads(line)
     if p["id"] == pid:
@@ -20,7 +21,7 @@ WHY THE EXISTING TESTS CANNOT SETTLE IT: {p['why_tests_cant']}
 FILES INVOLVED: {', '.join(p['anchors']['files'])}
 (The 'why' text describes the ORIGINAL upstream tree; defects it mentions as 'observed on the pinned tree' may already be repaired in your checkout. Check the behaviour of YOUR checkout.)
 
-Your job: write TWO different, independent, realistic changes to the library source under {wt}/src (each a small patch a tired developer could plausibly make: a refactoring slip, a wrong index, a swapped argument, a cached value that should not be cached, an off-by-one, a sign, a forgotten case, a 'simplification') such that, for EACH change on its own:
+{("Changes of the following kinds were already contributed by someone else; do something DIFFERENT in mechanism and location: " + avoid + chr(10) + chr(10)) if avoid else ""}Your job: write TWO different, independent, realistic changes to the library source under {wt}/src (each a small patch a tired developer could plausibly make: a refactoring slip, a wrong index, a swapped argument, a cached value that should not be cached, an off-by-one, a sign, a forgotten case, a 'simplification') such that, for EACH change on its own:
  1. the library still imports and the repository's own test suite STILL PASSES exactly as before: run it with
       cd {wt} && PYTHONPATH={wt}/src /venv/bin/python -m pytest -q -p no:cacheprovider --timeout=900 --continue-on-collection-errors 2>&1 | tail -3
     The expected summary with or without your change is `302 passed, 13 skipped, 5 deselected, 8 errors` (the 8 errors are pre-existing fixture errors). It takes ~1 minute. Check first that `PYTHONPATH={wt}/src /venv/bin/python -c "import ampform; print(ampform.__file__)"` prints a path under {wt}.
